@@ -278,10 +278,11 @@ SEQUENTIAL_SOURCE = not os.environ.get('VERIF_INDEPENDENT_SOURCE')
 class from_state(DataStreamProcessor):
     """Source that installs a descriptor verbatim and yields deep copies of the rows."""
 
-    def __init__(self, state, on_pull=None):
+    def __init__(self, state, on_pull=None, sequential=None):
         super().__init__()
         self.state = state
         self.on_pull = on_pull
+        self.sequential = SEQUENTIAL_SOURCE if sequential is None else sequential
 
     def process_datapackage(self, dp):
         return Package(copy.deepcopy(self.state.desc))
@@ -312,7 +313,7 @@ class from_state(DataStreamProcessor):
     def process_resources(self, resources):
         for _ in resources:   # no upstream expected
             pass
-        if SEQUENTIAL_SOURCE:
+        if self.sequential:
             cursor = self._cursor()
             for _ in self.state.rows:
                 yield self._seq_rows(cursor)
@@ -437,7 +438,7 @@ def _b_from_state(step, env):
     st = step['state']
     if not isinstance(st, State):
         st = State.from_json(st)
-    return from_state(st)
+    return from_state(st, sequential=step.get('sequential'))
 
 
 @builder('flow')
